@@ -2,6 +2,7 @@ package main
 
 import (
 	"github.com/0xrawsec/sod"
+	"math"
 )
 
 // scribble overwrites every mutable part of an object in place: scalars,
@@ -150,6 +151,55 @@ func (r *Runner) mutateImpl(op *Op) {
 			for _, o := range objs {
 				scribble(asRec(o))
 			}
+		}
+	case "one":
+		// One / AssignOne / AssignUnique with ONE probe object used for two look-ups (callers keep a probe around): each
+		// result is memory of its own - not the probe, not the other result - and equals the stored object
+		probe := r.proto()
+		u := r.slots[op.Slot]
+		k := asRec(r.ident(op.Slot))
+		_ = k
+		var o1, o2 sod.Object
+		var err error
+		s1 := r.db.Search(probe, "K", ">=", int64(math.MinInt64))
+		switch op.N % 3 {
+		case 0:
+			o1, err = s1.One()
+		case 1:
+			if r.cfg.Plain {
+				var t *RecPlain
+				if err = s1.AssignOne(&t); err == nil {
+					o1 = t
+				}
+			} else {
+				var t *Rec
+				if err = s1.AssignOne(&t); err == nil {
+					o1 = t
+				}
+			}
+		default:
+			o1, err = s1.Reverse().One()
+		}
+		e["c"] = classify(err)
+		_ = u
+		if err == nil && o1 != nil {
+			e["slot1"] = r.slotOf(o1.UUID())
+			e["before"] = r.project(o1)
+			e["isprobe"] = o1 == probe
+			// the second look-up with the same probe: the other end of the order
+			if op.N%3 == 2 {
+				o2, err = r.db.Search(probe, "K", ">=", int64(math.MinInt64)).One()
+			} else {
+				o2, err = r.db.Search(probe, "K", ">=", int64(math.MinInt64)).Reverse().One()
+			}
+			if err == nil && o2 != nil {
+				e["same"] = o1 == o2
+				e["after"] = r.project(o1) // the first result after the second look-up
+				scribble(asRec(o2))
+				e["after2"] = r.project(o1) // ... and after the second result was scribbled over
+			}
+		} else if err == nil {
+			e["c"] = "none"
 		}
 	case "share":
 		var o1, o2 sod.Object
